@@ -12,6 +12,15 @@ E1  for every name in ZConfig.datatypes.stock_datatypes: every string up to a pe
 Sweep  every Unicode code point U+0000..U+10FFFF at one position of 1-3 contexts per type.
 E5  the live pattern of the five RegularExpressionConversions against hand-written
     automata, all lengths (vz.engine.dfa).
+H   call history ("a datatype is a FUNCTION of its input string"): every case of the E1, token
+    and sweep spaces is converted in three history contexts - first (after all its enumeration
+    predecessors), repeat (immediately after itself, after the caller has mutated the first
+    result when that is mutable), reverse (a second pass over the whole shard in reverse order,
+    through a converter obtained from another Registry under another spelling) - and must give
+    the same outcome each time; every ordered pair of stock datatypes (A, B) x every string up
+    to XLEN over either alphabet: A(s) then B(s), B judged by the reference (state shared between
+    converters); every ordered pair of strings up to PLEN of one datatype: f(s1) then f(s2),
+    both judged by the reference (state carried from one input to another).
 """
 import itertools
 import os
@@ -22,11 +31,11 @@ from vz import core
 from vz.engine import dfa
 from vz.ref import dtypes as R
 
-NAMES_ALPHA = "aZ0-._!\n\xe9\xb7\u0661\u20ac"   # lower upper digit - . _ other \n u-start u-cont u-nd u-other
+NAMES_ALPHA = "aAZ0-._!\n\xe9\xb7\u0661\u20ac"  # lower, the same letter in upper case (lossy-key collisions), upper digit - . _ other \n u-start u-cont u-nd u-other
 INET_ALPHA = "[]:aA16- .\u0661"
 SOCK_ALPHA = "[]:aA16- /\u0661"
 NUM_ALPHA = "0356+-_ \u0661x."
-FS_ALPHA = "fdl/.~x"
+FS_ALPHA = "fFdl/.~x"     # F: the name of file f in the other case (does not exist)
 
 # name -> (alphabet, quick max length, thorough max length)
 SPACES = {
@@ -108,6 +117,25 @@ E5_CONTEXTS = {
     "ipaddr-or-hostname": [("", ""), ("a", ""), ("1.1.1.", ""), ("1:", "")],
 }
 FS_TYPES = ("existing-directory", "existing-path", "existing-file", "existing-dirpath")
+
+# history axis: (quick, thorough) bounds
+XLEN = (3, 4)        # cross-datatype: A(s) then B(s), all ordered pairs (A, B), s up to XLEN over alphabet(A) | alphabet(B)
+XLEN_SYS = (2, 3)    # ... when A or B makes system calls per conversion (existing-*, locale)
+SYSCALL_TYPES = FS_TYPES + ("locale",)
+PLEN = (2, 2)        # same datatype: f(s1) then f(s2), all ordered pairs of strings up to PLEN over the full alphabet
+PLEN_DEEP = 3        # thorough only: ... and up to PLEN_DEEP over the reduced alphabet PAIR_ALPHA
+REPEATS = (1, 2)     # immediate repetitions of every case after its first conversion
+PAIR_ALPHA = {
+    "boolean": "onOfx", "integer": "05-+ ", "port-number": "65-+ ", "float": "1.e-n",
+    "string": "a \xe9\n\x00", "null": "a \xe9\n\x00", "string-list": "ab \t\xa0", "locale": "C.U-8",
+    "basic-key": "aA0-.", "identifier": "aA0_.", "dotted-name": "aA0_.", "dotted-suffix": "aA0_.",
+    "byte-size": "1kKbm", "time-interval": "1sSmd",
+    "inet-address": "[]:a1", "inet-binding-address": "[]:A1", "inet-connection-address": "[]:a1",
+    "socket-address": "]:a1/", "socket-binding-address": "]:A1/", "socket-connection-address": "]:a1/",
+    "ipaddr-or-hostname": "1aA:.", "existing-directory": "fFd/~", "existing-path": "fFd/~",
+    "existing-file": "fFd/~", "existing-dirpath": "fFd/~", "timedelta": "1.wW ",
+}
+MUTATION_MARK = "\x00mutated-by-the-caller"
 
 
 # ----------------------------------------------------------------------------
@@ -255,7 +283,7 @@ def _asciify_digits(s):
 
 def feature(name, s, kind, obs):
     """The specific failing feature: what known-finding signatures are matched on."""
-    if obs and obs[0] == "exc":
+    if type(obs) is tuple and obs and obs[0] == "exc":
         cls = obs[1]["class"]
         if name == "timedelta" and cls == "OverflowError" and R.td_out_of_range(s):
             return "number-out-of-timedelta-range"
@@ -281,6 +309,45 @@ def feature(name, s, kind, obs):
     return "general"
 
 
+_VE = ("ValueError",)
+
+
+def _same(a, b):
+    """Two observations of one (datatype, string) are the same outcome."""
+    if a is b:
+        return True
+    if a[0] != b[0]:
+        return False
+    if a[0] != "ok":
+        return a == b
+    x, y = a[1], b[1]
+    t = type(x)
+    if t is not type(y):
+        return False
+    if t is str:
+        return x == y
+    if t is float:
+        return R.float_bits(x) == R.float_bits(y)
+    return x == y and repr(x) == repr(y)     # repr: True vs 1, -0.0 vs 0.0 inside containers
+
+
+def _mutate(v):
+    """What a caller may do with a value it was handed: change it in place.  True if changed."""
+    t = type(v)
+    if t is str or t is tuple or t is int or t is bool or t is float:
+        return False
+    if t is list:
+        v.append(MUTATION_MARK)
+        v.reverse()
+        return True
+    d = getattr(v, "__dict__", None)
+    if type(d) is dict and d:
+        for k in list(d):
+            d[k] = MUTATION_MARK
+        return True
+    return False
+
+
 class Ctx:
     """One datatype inside one shard: the live conversion, its reference, local counters."""
 
@@ -290,6 +357,8 @@ class Ctx:
         self.acc = acc
         reg = registry or ZConfig.datatypes.Registry()
         self.f = reg.get(name)
+        # the same datatype through another Registry and another spelling (reverse pass)
+        self.f2 = ZConfig.datatypes.Registry().get(name.upper())
         if name not in R.REFERENCE:
             raise core.HarnessError("no reference conversion for stock datatype %r" % name)
         self.ref = R.REFERENCE[name]
@@ -298,6 +367,11 @@ class Ctx:
         self.norm = name.startswith("socket-")
         self.cnt = {}        # (observed class, reference verdict, first character) -> cases
         self.engine = "E1"
+        self.repeats = 1     # immediate repetitions after the first conversion (history axis)
+        self.shard = None    # descriptor of the running shard (replay of reverse-pass reports)
+        self.raw = None
+        self.h_rep_ok = self.h_rep_rej = self.h_mut = 0
+        self.h_rev_ok = self.h_rev_rej = 0
 
     def flush(self):
         acc, name = self.acc, self.name
@@ -308,31 +382,83 @@ class Ctx:
             if o == "ok" or e != "reject":
                 acc.extra["fc\t%s\t%s\tL" % (name, c)] += 1
         self.cnt.clear()
+        x = acc.extra
+        x["hist_repeat_calls"] += self.h_rep_ok + self.h_rep_rej
+        x["hist_reverse_calls"] += self.h_rev_ok + self.h_rev_rej
+        x["hist_results_mutated_by_caller"] += self.h_mut
+        x["hist_ok:%s" % name] += self.h_rep_ok + self.h_rev_ok
+        x["hist_rejected:%s" % name] += self.h_rep_rej + self.h_rev_rej
+        self.h_rep_ok = self.h_rep_rej = self.h_mut = self.h_rev_ok = self.h_rev_rej = 0
 
-    def viol(self, kind, s, obs, exp):
+    def viol(self, kind, s, obs, exp, history=None):
         acc = self.acc
-        acc.violation(kind, {"datatype": self.name, "string": s, "engine": self.engine},
-                      obs, exp,
-                      tags={"kind": kind, "datatype": self.name,
-                            "feature": feature(self.name, s, kind, obs)},
-                      size=len(s) * 8 + len(self.name))
+        case = {"datatype": self.name, "string": s, "engine": self.engine}
+        tags = {"kind": kind, "datatype": self.name, "feature": feature(self.name, s, kind, obs)}
+        if history is not None:
+            case["history"] = history
+            tags["history"] = history[0]
+            if history[0] == "reverse":
+                case["shard"] = self.shard
+        acc.violation(kind, case, obs, exp, tags=tags, size=len(s) * 8 + len(self.name))
+
+    def observe(self, s, f=None):
+        """One call of the live datatype.  The raw returned object stays in self.raw."""
+        try:
+            v = (f or self.f)(s)
+            self.raw = v
+            if self.norm:
+                v = _norm(self.name, v)
+            elif type(v) is list:
+                v = list(v)              # snapshot: the caller-mutation step changes the original
+            return ("ok", v)
+        except ValueError:
+            return _VE
+        except TypeError as e:
+            return ("TypeError", str(e)[:80])
+        except Exception as e:
+            return ("exc", core.exc_desc(e))
 
     def check(self, s):
-        """Run the live datatype on s and judge it.  Returns (obs, exp)."""
-        name = self.name
-        self.acc.current = (name, s)
-        try:
-            v = self.f(s)
-            if self.norm:
-                v = _norm(name, v)
-            obs = ("ok", v)
-        except ValueError:
-            obs = ("ValueError",)
-        except TypeError as e:
-            obs = ("TypeError", str(e)[:80])
-        except Exception as e:
-            obs = ("exc", core.exc_desc(e))
+        """Run the live datatype on s, judge it, then repeat the call.  Returns (obs, exp)."""
+        self.acc.current = (self.name, s)
+        obs = self.observe(s)
+        raw = self.raw
         exp = self.ref(s)
+        if self.judge(s, obs, exp):
+            return obs, exp
+        # history axis, context "repeat": the same call again, immediately, after the caller has
+        # changed the value it was handed in place (when it is mutable)
+        ok = obs[0] == "ok"
+        for i in range(self.repeats):
+            if ok and _mutate(raw):
+                self.h_mut += 1
+            again = self.observe(s)
+            raw = self.raw
+            if ok:
+                self.h_rep_ok += 1
+            else:
+                self.h_rep_rej += 1
+            if again is not obs and not _same(again, obs):
+                self.viol("history-dependent", s, {"first call": obs, "call %d" % (i + 2): again},
+                          ("same outcome on every call; reference", exp), history=["repeat", i + 2])
+                break
+        return obs, exp
+
+    def recheck(self, s, first):
+        """History context "reverse": s again, late, through the other Registry's converter."""
+        self.acc.current = (self.name, s, "reverse pass")
+        again = self.observe(s, self.f2)
+        if first[0] == "ok":
+            self.h_rev_ok += 1
+        else:
+            self.h_rev_rej += 1
+        if again is not first and not _same(again, first):
+            self.viol("history-dependent", s, {"first call": first, "reverse pass": again},
+                      ("same outcome on every call", "first call"), history=["reverse"])
+
+    def judge(self, s, obs, exp, history=None):
+        """Compare one observation with the reference verdict.  True if a violation was filed."""
+        name = self.name
         ek = exp[0]
         ok = obs[0]
         key = (ok, ek, s[:1])
@@ -340,44 +466,46 @@ class Ctx:
         cnt[key] = cnt.get(key, 0) + 1
         # 1. totality
         if ok == "exc":
-            self.viol("internal-error", s, obs, exp)
-            return obs, exp
+            self.viol("internal-error", s, obs, exp, history)
+            return True
         if ok == "TypeError":
             allowed = self.is_td and (
                 (ek == "reject" and len(exp) > 1) or (ek == "unspec" and R.td_unknown_unit(s)))
             if not allowed:
-                self.viol("internal-error", s, ("exc", {"class": "TypeError", "msg": obs[1]}), exp)
-                return obs, exp
+                self.viol("internal-error", s, ("exc", {"class": "TypeError", "msg": obs[1]}), exp,
+                          history)
+                return True
         # 2. exact result on the documented domain
         if ek == "ok":
             if ok != "ok":
-                self.viol("wrongly-rejected", s, obs, exp)
-                return obs, exp
+                self.viol("wrongly-rejected", s, obs, exp, history)
+                return True
             if not _equal(name, obs[1], exp[1]):
-                self.viol("wrong-value", s, obs, exp)
-                return obs, exp
+                self.viol("wrong-value", s, obs, exp, history)
+                return True
         elif ek == "reject":
             if ok == "ok":
-                self.viol("wrongly-accepted", s, obs, exp)
-                return obs, exp
+                self.viol("wrongly-accepted", s, obs, exp, history)
+                return True
             want = exp[1] if len(exp) > 1 else "ValueError"
             if want != "either" and ok != want:
-                self.viol("wrong-exception", s, obs, exp)
-                return obs, exp
+                self.viol("wrong-exception", s, obs, exp, history)
+                return True
         # 3. post-conditions of any returned value, idempotence of key normalisers
         if ok == "ok":
             m = R.postcondition(name, s, obs[1])
             if m:
-                self.viol("postcondition", s, obs, ("contract", m))
-                return obs, exp
+                self.viol("postcondition", s, obs, ("contract", m), history)
+                return True
             if self.idem:
                 try:
                     v2 = ("ok", self.f(obs[1]))
                 except Exception as e:
                     v2 = ("exc", core.exc_desc(e))
                 if v2 != ("ok", obs[1]):
-                    self.viol("not-idempotent", s, (obs, "then", v2), "f(f(s)) == f(s)")
-        return obs, exp
+                    self.viol("not-idempotent", s, (obs, "then", v2), "f(f(s)) == f(s)", history)
+                    return True
+        return False
 
 
 # ----------------------------------------------------------------------------
@@ -443,46 +571,76 @@ def strings(alphabet, prefix, minlen, maxlen):
                 yield prefix + "".join(t)
 
 
+def _descr(sh):
+    """Shard descriptor without the scratch root (goes into replay files)."""
+    return core.jsonable(list(sh[:-1]))
+
+
+def _two_passes(ctx, cases, acc, sample, reverse=True):
+    """History contexts first + repeat (ctx.check) for every case in enumeration order, then
+    (reverse=True) context reverse: every case once more in reverse order."""
+    firsts = []
+    add = firsts.append if reverse else (lambda o: None)
+    n = 0
+    for s in cases:
+        obs, exp = ctx.check(s)
+        add(obs)
+        n += 1
+        if sample and n % sample == 0:
+            acc.sample(lambda: {"datatype": ctx.name, "string": s, "observed": obs[:2],
+                                "reference": exp, "history": "first, repeat, reverse"})
+    i = n if reverse else 0
+    recheck = ctx.recheck
+    while i:
+        i -= 1
+        if firsts[i][0] != "exc":
+            recheck(cases[i], firsts[i])
+    return n
+
+
+def fresh_datatypes():
+    """Every shard starts from the state ZConfig.datatypes has right after import, so that what
+    a shard observes depends on its own call history only (not on which shards the worker
+    process happened to run before): the module is re-executed in place."""
+    import importlib
+    import ZConfig.datatypes
+    importlib.reload(ZConfig.datatypes)
+
+
 def shard(sh, acc):
     kind = sh[0]
+    fresh_datatypes()
     if kind == "e1":
-        _, name, alphabet, prefix, minlen, maxlen, root = sh
+        _, name, alphabet, prefix, minlen, maxlen, reps, root = sh
         ctx = Ctx(name, acc)
-        n = 0
+        ctx.repeats, ctx.shard = reps, _descr(sh)
         with _fs(name, root):
-            for s in strings(alphabet, prefix, minlen, maxlen):
-                obs, exp = ctx.check(s)
-                n += 1
-                if n % 64 == 0:
-                    acc.sample(lambda: {"datatype": name, "string": s, "observed": obs[:2],
-                                        "reference": exp})
+            n = _two_passes(ctx, list(strings(alphabet, prefix, minlen, maxlen)), acc, 64)
         acc.ev(n)
         ctx.flush()
     elif kind == "tok":
-        _, name, tier, root = sh
+        _, name, tier, reps, root = sh
         ctx = Ctx(name, acc)
-        n = 0
+        ctx.repeats, ctx.shard = reps, _descr(sh)
         with _fs(name, root):
-            for s in tokens(name, tier):
-                obs, exp = ctx.check(s)
-                n += 1
-                acc.sample(lambda: {"datatype": name, "string": s, "observed": obs[:2],
-                                    "reference": exp, "space": "tokens"})
+            n = _two_passes(ctx, list(tokens(name, tier)), acc, 1)
         acc.ev(n)
         acc.extra["token_cases"] += n
         ctx.flush()
     elif kind == "sweep":
-        _, name, contexts, lo, hi, root = sh
+        _, name, contexts, lo, hi, reps, rev, root = sh
         ctx = Ctx(name, acc)
-        n = 0
+        ctx.repeats, ctx.shard = reps, _descr(sh)
         with _fs(name, root):
-            for pre, post in contexts:
-                for cp in range(lo, hi):
-                    ctx.check(pre + chr(cp) + post)
-                    n += 1
+            n = _two_passes(ctx, [pre + chr(cp) + post for pre, post in contexts
+                                  for cp in range(lo, hi)], acc, 0, rev)
         acc.ev(n)
         acc.extra["unicode_sweep_cases"] += n
         ctx.flush()
+    elif kind == "cross":
+        shard_cross(sh, acc)
+    elif kind == "pairs":
+        shard_pairs(sh, acc)
     elif kind == "e5":
         shard_e5(sh[1], acc)
     elif kind == "table":
@@ -490,6 +648,92 @@ def shard(sh, acc):
     else:
         raise core.HarnessError("unknown shard kind %r" % (kind,))
     return acc
+
+
+def _swallow(f, s):
+    """A call whose own outcome is judged elsewhere: only what it leaves behind matters here."""
+    try:
+        f(s)
+    except Exception:
+        pass
+
+
+def cross_strings(a, b, maxlen):
+    """Every string up to maxlen over the alphabet of datatype a, then those over b's."""
+    out = list(strings(SPACES[a][0], "", 0, maxlen))
+    if SPACES[b][0] != SPACES[a][0]:
+        seen = set(out)
+        out += [s for s in strings(SPACES[b][0], "", 0, maxlen) if s not in seen]
+    return out
+
+
+def shard_cross(sh, acc):
+    """History context "after another datatype": A(s) then B(s) on the same string; B(s) is
+    judged by the reference (and repeated).  A's converter comes from a Registry of its own."""
+    import ZConfig.datatypes
+    _, a, b, maxlen, root = sh
+    fa = ZConfig.datatypes.Registry().get(a)
+    ctx = Ctx(b, acc)
+    ctx.repeats = 0
+    hist = ["after-other-datatype", a]
+    n = 0
+    with _fs(a, root) if a in FS_TYPES else _fs(b, root):
+        for s in cross_strings(a, b, maxlen):
+            acc.current = (a, "then", b, s)
+            _swallow(fa, s)
+            obs = ctx.observe(s)
+            exp = ctx.ref(s)
+            ctx.judge(s, obs, exp, hist)
+            n += 1
+            if n % 16 == 0:
+                acc.sample(lambda: {"datatype": b, "string": s, "observed": obs[:2], "reference": exp,
+                                    "history": "after %s(%r)" % (a, s)})
+    acc.ev(n)
+    acc.extra["hist_cross_cases"] += n
+    acc.extra["hist_cross_ordered_pairs"] += 1
+    ctx.flush()
+
+
+def pair_strings(name, tier):
+    """The string sets whose ordered pairs are enumerated for one datatype."""
+    q = tier == "quick"
+    sets = [list(strings(SPACES[name][0], "", 0, PLEN[0 if q else 1]))]
+    if not q:
+        sets.append(list(strings(PAIR_ALPHA[name], "", 0, PLEN_DEEP)))
+    return sets
+
+
+def shard_pairs(sh, acc):
+    """History context "after a different input": f(s1) then f(s2) for every ordered pair of
+    strings of the set (s1 == s2 included); both calls judged by the reference."""
+    _, name, tier, which, root = sh
+    ctx = Ctx(name, acc)
+    ctx.repeats = 0
+    S = pair_strings(name, tier)[which]
+    n = 0
+    prev = None          # the string converted immediately before the call being judged
+    with _fs(name, root):
+        exps = [ctx.ref(s) for s in S]
+        for i, s1 in enumerate(S):
+            e1 = exps[i]
+            o2 = None
+            for j, s2 in enumerate(S):
+                acc.current = (name, prev, "then", s1, "then", s2)
+                o1 = ctx.observe(s1)
+                bad = ctx.judge(s1, o1, e1, ["after-different-input", prev])
+                prev = s1
+                if bad:
+                    continue
+                o2 = ctx.observe(s2)
+                ctx.judge(s2, o2, exps[j], ["after-different-input", s1])
+                prev = s2
+                n += 1
+            if o2 is not None:
+                acc.sample(lambda: {"datatype": name, "string": s2, "observed": o2[:2],
+                                    "reference": exps[j], "history": "after %s(%r)" % (name, s1)})
+    acc.ev(2 * n)
+    acc.extra["hist_pair_cases"] += n
+    ctx.flush()
 
 
 def shard_table(acc):
@@ -581,6 +825,7 @@ def shard_e5(name, acc):
 def plan(tier, root):
     quick = tier == "quick"
     shards = []
+    reps = REPEATS[0 if quick else 1]
 
     def add_space(name, alphabet, minlen, maxlen):
         k = len(alphabet)
@@ -589,28 +834,42 @@ def plan(tier, root):
             p += 1
         if p == 0:
             shards.append((sum(k ** i for i in range(minlen, maxlen + 1)),
-                           ("e1", name, alphabet, "", minlen, maxlen, root)))
+                           ("e1", name, alphabet, "", minlen, maxlen, reps, root)))
             return
         if minlen < p:
             shards.append((sum(k ** i for i in range(minlen, p)),
-                           ("e1", name, alphabet, "", minlen, p - 1, root)))
+                           ("e1", name, alphabet, "", minlen, p - 1, reps, root)))
         for t in itertools.product(alphabet, repeat=p):
             shards.append((k ** (maxlen - p) * 1.2,
-                           ("e1", name, alphabet, "".join(t), max(minlen, p), maxlen, root)))
+                           ("e1", name, alphabet, "".join(t), max(minlen, p), maxlen, reps, root)))
 
     for name in sorted(SPACES):
         alphabet, ql, tl = SPACES[name]
         add_space(name, alphabet, 0, ql if quick else tl)
-        shards.append((50000, ("tok", name, tier, root)))
+        shards.append((50000, ("tok", name, tier, reps, root)))
         ctxs = SWEEP[name]
         ctxs = ctxs[:QUICK_CTX.get(name, 1)] if quick else ctxs
         step = 0x110000 // 8
         for lo in range(0, 0x110000, step):
+            slow = name in SYSCALL_TYPES      # (thorough: one repeat, no reverse pass for these)
             shards.append((step * len(ctxs) * (4 if name == "locale" else 1),
-                           ("sweep", name, ctxs, lo, min(lo + step, 0x110000), root)))
+                           ("sweep", name, ctxs, lo, min(lo + step, 0x110000),
+                            0 if quick else (1 if slow else reps), not quick and not slow, root)))
     if not quick:
         for name, alphabet, lo, hi in DEEP:
             add_space(name, alphabet, lo, hi)
+    # history axis: state shared between converters, state carried between inputs
+    for a in sorted(SPACES):
+        for b in sorted(SPACES):
+            if a != b:
+                slow = a in SYSCALL_TYPES or b in SYSCALL_TYPES
+                xlen = (XLEN_SYS if slow else XLEN)[0 if quick else 1]
+                w = len(SPACES[a][0]) ** xlen + len(SPACES[b][0]) ** xlen
+                shards.append((w * (4 if slow else 1), ("cross", a, b, xlen, root)))
+    for name in sorted(SPACES):
+        for which, S in enumerate(pair_strings(name, tier)):
+            shards.append((len(S) ** 2 * (4 if name in FS_TYPES else 1),
+                           ("pairs", name, tier, which, root)))
     for name in E5_TYPES:
         shards.append((600000, ("e5", name)))
     shards.append((1, ("table",)))
@@ -629,13 +888,40 @@ def run(tier):
              "vz.ref.dtypes. Non-trivial = a string the datatype does not reject for its first "
              "character alone, i.e. a case whose first character also starts some accepted or "
              "unspecified case of the same datatype in this run (shards partition the space; the "
-             "count is of distinct (datatype, string) pairs). states/transitions = E5 products.",
+             "count is of distinct (history context, datatype, string) cases: one judged call each). "
+             "states/transitions = E5 products. "
+             "History axis (a datatype is a function of its input alone): every case above is "
+             "converted first (after all enumeration predecessors of its shard); every case of the "
+             "plain and token spaces (thorough: also of the sweep - bounds.history.repeat_and_reverse_on) "
+             "again immediately (bounds.history.immediate_repeats times; a mutable first result - list, "
+             "object attributes - is changed in place by the caller before), and once more in a reverse-order "
+             "second pass over the shard through Registry().get(NAME upper-cased) of another "
+             "Registry; all outcomes must be identical (type-strict, NaN-safe) - counters "
+             "hist_repeat_calls, hist_reverse_calls, hist_results_mutated_by_caller. Every ordered "
+             "pair (A, B) of the 26 stock datatypes x every string up to cross_len (shorter when A or B "
+             "is an existing-* type or locale, see bounds.history) over alphabet(A) "
+             "or alphabet(B): A(s) then B(s), B(s) judged by the reference (hist_cross_cases). Every "
+             "ordered pair (s1, s2), s1 == s2 included, of strings up to pair_len over the datatype's "
+             "alphabet (thorough: also up to pair_len_reduced over bounds.history.pair_alphabet): "
+             "f(s1) then f(s2), each call judged by the reference (hist_pair_cases).",
         bounds={"spaces": {n: {"alphabet": a, "max_len": (q if quick else t)}
                            for n, (a, q, t) in sorted(SPACES.items())},
                 "deep_spaces": [] if quick else [list(d) for d in DEEP],
                 "unicode_contexts": {n: (c[:QUICK_CTX.get(n, 1)] if quick else c)
                                      for n, c in sorted(SWEEP.items())},
-                "e5": list(E5_TYPES)},
+                "e5": list(E5_TYPES),
+                "history": {"contexts": ["first", "repeat", "repeat-after-caller-mutation", "reverse-pass",
+                                         "after-other-datatype", "after-different-input"],
+                            "immediate_repeats": REPEATS[0 if quick else 1],
+                            "repeat_and_reverse_on": ["plain spaces", "token spaces"] + ([] if quick else [
+                                "unicode sweep (existing-*, locale: one repeat, no reverse pass)"]),
+                            "cross_ordered_pairs": len(SPACES) * (len(SPACES) - 1),
+                            "cross_len": XLEN[0 if quick else 1],
+                            "cross_len_if_either_makes_system_calls": XLEN_SYS[0 if quick else 1],
+                            "system_call_datatypes": list(SYSCALL_TYPES),
+                            "pair_len": PLEN[0 if quick else 1],
+                            "pair_len_reduced": None if quick else PLEN_DEEP,
+                            "pair_alphabet": None if quick else PAIR_ALPHA}},
         assumptions=[
             "vz/ref/dtypes.py states the documented contracts; its unspecified regions (module "
             "docstring) are checked for totality and post-conditions only",
@@ -643,7 +929,10 @@ def run(tier):
             "call (prefix match, then comparison with the whole string) is decided by E1 up to "
             "the length bound; ipaddr-or-hostname strings containing ':' are decided by E1 only",
             "IPv6 validator self-tested against the stdlib ipaddress module at start-up",
-            "existing-* evaluated in a scratch cwd/HOME under /dev/shm; locale: totality only"])
+            "existing-* evaluated in a scratch cwd/HOME under /dev/shm; locale: totality only",
+            "history: ZConfig.datatypes is re-executed (importlib.reload) at the start of every shard, so "
+            "a shard's observations depend on the calls of that shard only; the longest history is one "
+            "shard (up to 360 k cases x 3 calls)"])
     n_self = R.ipv6_selftest()
     names = set(D.stock_datatypes)
     run.require(names == set(SPACES) == set(SWEEP),
@@ -675,12 +964,35 @@ def run(tier):
     run.require(acc.extra.get("e5_products", 0) == len(E5_TYPES), "E5 products missing")
     run.require(acc.states >= 1500 and acc.transitions >= 30000, "E5 products suspiciously small")
     run.require(acc.classes.get("timedelta:TypeError", 0) > 0, "timedelta unknown unit never explored")
+    # history axis really exercised
+    x = acc.extra
+    base = x.get("token_cases", 0) + (0 if quick else x.get("unicode_sweep_cases", 0) // 2)
+    run.require(x.get("hist_repeat_calls", 0) >= (base + 1000000) * REPEATS[0 if quick else 1] > 0,
+                "history: fewer immediate repeats (%d) than the token%s cases (%d) + 1 M plain-space cases"
+                % (x.get("hist_repeat_calls", 0), "" if quick else " + sweep", base))
+    run.require(x.get("hist_reverse_calls", 0) >= base + 1000000 > 0,
+                "history: reverse pass (%d) smaller than the token%s cases (%d) + 1 M plain-space cases"
+                % (x.get("hist_reverse_calls", 0), "" if quick else " + sweep", base))
+    run.require(x.get("hist_cross_ordered_pairs", 0) == len(SPACES) * (len(SPACES) - 1),
+                "history: not every ordered pair of datatypes was run")
+    run.require(x.get("hist_cross_cases", 0) >= 100000 and x.get("hist_pair_cases", 0) >= 100000,
+                "history: cross-datatype / input-pair spaces suspiciously small")
+    run.require(x.get("hist_results_mutated_by_caller", 0) >= 1000,
+                "history: caller-side mutation of returned values never exercised")
+    for name in sorted(SPACES):
+        run.require(x.get("hist_ok:%s" % name, 0) > 0,
+                    "history: no accepted input re-converted for %s" % name)
+        if name not in ("string", "null", "string-list"):
+            run.require(x.get("hist_rejected:%s" % name, 0) > 0,
+                        "history: no refused input re-converted for %s" % name)
     return run
 
 
 def replay(body):
+    import ZConfig.datatypes
     case = body["case"]
     name, s = case["datatype"], case["string"]
+    hist = case.get("history") or ["first"]
     acc = core.Acc()
     if case.get("engine") == "table":
         for _ in range(2):
@@ -688,11 +1000,32 @@ def replay(body):
     else:
         fs = ScratchFS.create()
         try:
-            with _fs(name, fs.root):
+            if hist[0] == "reverse" and case.get("shard"):
+                # the outcome depended on what the rest of the shard left behind: run the shard
+                sh = case["shard"]
+                if sh[0] == "sweep":
+                    sh[2] = [tuple(c) for c in sh[2]]
                 for i in range(2):
-                    ctx = Ctx(name, acc)
-                    obs, exp = ctx.check(s)
-                    print("run %d: %s(%r) observed=%r reference=%r" % (i + 1, name, s, obs, exp))
+                    n0 = acc.violations_total
+                    shard(tuple(sh) + (fs.root,), acc)      # (starts with fresh_datatypes())
+                    print("run %d: shard %r: %d violation(s)" % (i + 1, sh, acc.violations_total - n0))
+            else:
+                fs_name = name if name in FS_TYPES else (
+                    hist[1] if hist[0] == "after-other-datatype" and hist[1] in FS_TYPES else name)
+                with _fs(fs_name, fs.root):
+                    for i in range(2):
+                        fresh_datatypes()
+                        ctx = Ctx(name, acc)
+                        ctx.repeats = max(REPEATS)
+                        if hist[0] == "after-other-datatype":
+                            _swallow(ZConfig.datatypes.Registry().get(hist[1]), s)
+                            print("run %d: first %s(%r)" % (i + 1, hist[1], s))
+                        elif hist[0] == "after-different-input" and hist[1] is not None:
+                            _swallow(ctx.f, hist[1])
+                            print("run %d: first %s(%r)" % (i + 1, name, hist[1]))
+                        obs, exp = ctx.check(s)
+                        print("run %d: %s(%r) observed=%r reference=%r (then repeated %d times)"
+                              % (i + 1, name, s, obs, exp, ctx.repeats))
         finally:
             fs.remove()
     for v in acc.violations.values():
